@@ -363,16 +363,23 @@ fn diags_json(ds: &[vhdl_lang::Diagnostic]) -> Value {
 
 /// `layered`: an earlier configuration file defines the same libraries with the OPPOSITE is_third_party flags
 /// (installation / home / VHDL_LS_CONFIG / project files are merged with Config::append: the last definition decides)
-fn make_config(dir: &str, libfiles: &BTreeMap<String, Vec<String>>, third_party: &dyn Fn(&str) -> bool, layered: bool) -> Config {
+/// `names`: configured spelling of the library with the given role (lib / tp / lib2): mixed and upper case, digits, underscores
+fn make_config(
+    dir: &str,
+    libfiles: &BTreeMap<String, Vec<String>>,
+    names: &BTreeMap<String, String>,
+    third_party: &dyn Fn(&str) -> bool,
+    layered: bool,
+) -> Config {
     let mut msgs = NullMessages;
     let mut cfg = Config::default();
     cfg.load_external_config(&mut msgs, Some("/repo/vhdl_libraries".to_string()));
     if layered {
         let mut toml = String::from("[libraries]\n");
         for (lib, files) in libfiles {
-            toml.push_str(&format!("{}.files=[{}]\n", lib, files.iter().map(|n| format!("'{}'", n)).collect::<Vec<_>>().join(",")));
+            toml.push_str(&format!("{}.files=[{}]\n", names[lib], files.iter().map(|n| format!("'{}'", n)).collect::<Vec<_>>().join(",")));
             if !third_party(lib) {
-                toml.push_str(&format!("{}.is_third_party=true\n", lib));
+                toml.push_str(&format!("{}.is_third_party=true\n", names[lib]));
             }
         }
         cfg.append(&Config::from_str(&toml, Path::new(dir)).expect("config"), &mut msgs);
@@ -381,11 +388,11 @@ fn make_config(dir: &str, libfiles: &BTreeMap<String, Vec<String>>, third_party:
     for (lib, files) in libfiles {
         toml.push_str(&format!(
             "{}.files=[{}]\n",
-            lib,
+            names[lib],
             files.iter().map(|n| format!("'{}'", n)).collect::<Vec<_>>().join(",")
         ));
         if third_party(lib) {
-            toml.push_str(&format!("{}.is_third_party=true\n", lib));
+            toml.push_str(&format!("{}.is_third_party=true\n", names[lib]));
         }
     }
     cfg.append(&Config::from_str(&toml, Path::new(dir)).expect("config"), &mut msgs);
@@ -403,6 +410,12 @@ fn run_project(pj: &Value, workdir: &str) -> Value {
     libfiles.insert("tp".into(), vec![]);
     libfiles.insert("lib2".into(), vec![]);
     let layered = pj["layered"].as_bool().unwrap_or(false);
+    let mut names: BTreeMap<String, String> = BTreeMap::new();
+    for role in ["lib", "tp", "lib2"] {
+        names.insert(role.to_string(), pj["libnames"][role].as_str().unwrap_or(role).to_string());
+    }
+    let cased = !pj["libnames"].is_null();
+    let mut nfile = 0usize;
     let mut all_files = vec![];
     let mut marks = vec![]; // per group: {"gid","lib","v0":{decls,refs},"v1":...}
     let mut edits: Vec<(String, String)> = vec![];
@@ -417,7 +430,16 @@ fn run_project(pj: &Value, workdir: &str) -> Value {
             for f in g[key].as_array().unwrap() {
                 let name = f[0].as_str().unwrap();
                 let path = format!("{}/{}", dir, name);
-                let (clean, decls, refs) = strip_markers(&path, f[1].as_str().unwrap(), 0);
+                // the VHDL text names its own library in another letter case than the configuration does
+                let raw = f[1].as_str().unwrap();
+                let text = if cased && !raw.trim().is_empty() {
+                    nfile += 1;
+                    let n = &names[&lib];
+                    format!("library {};\n{}", if nfile % 2 == 0 { n.to_lowercase() } else { n.to_uppercase() }, raw)
+                } else {
+                    raw.to_string()
+                };
+                let (clean, decls, refs) = strip_markers(&path, &text, 0);
                 if ver == 0 {
                     std::fs::write(&path, &clean).unwrap();
                     libfiles.get_mut(&lib).unwrap().push(name.to_string());
@@ -445,7 +467,7 @@ fn run_project(pj: &Value, workdir: &str) -> Value {
     libfiles.get_mut("lib").unwrap().push("scratch_u.vhd".into());
     let mut steps = vec![];
     let mut msgs = NullMessages;
-    let cfg = make_config(&dir, &libfiles, &|l| l == "tp", layered);
+    let cfg = make_config(&dir, &libfiles, &names, &|l| l == "tp", layered);
     let mut p = Project::from_config(cfg, &mut msgs);
     p.enable_unused_declaration_detection();
     let mut edited = false;
@@ -475,7 +497,7 @@ fn run_project(pj: &Value, workdir: &str) -> Value {
     touch(&mut p, &scratch_c, "-- scratch, edited\n-- second line\n");
     round!("comment_edit");
     if pj["flip"].as_bool().unwrap_or(false) {
-        let cfg = make_config(&dir, &libfiles, &|l| l == "lib", layered);
+        let cfg = make_config(&dir, &libfiles, &names, &|l| l == "lib", layered);
         p.update_config(cfg, &mut msgs);
         tp = json!({"lib":true,"tp":false,"lib2":false});
         round!("flip");
